@@ -1223,7 +1223,7 @@ struct const_subarray : array_types<T, D, ElementPtr, Layout> {
 	}
 
  public:
-	constexpr auto taked(difference_type n) const& -> basic_const_array { return taked_aux_(n); }
+	constexpr auto taked(difference_type n) const& -> const_subarray { return taked_aux_(n); }
 	// constexpr auto taked(difference_type n)     && -> const_subarray    { return taked_aux_(n); }
 	// constexpr auto taked(difference_type n)      & -> const_subarray    { return taked_aux_(n); }
 
@@ -1260,7 +1260,7 @@ struct const_subarray : array_types<T, D, ElementPtr, Layout> {
 	}
 
  public:
-	constexpr auto dropped(difference_type n) const& -> basic_const_array { return dropped_aux_(n); }
+	constexpr auto dropped(difference_type n) const& -> const_subarray { return dropped_aux_(n); }
 	constexpr auto dropped(difference_type n)     && ->    const_subarray { return dropped_aux_(n); }
 	constexpr auto dropped(difference_type n)      & ->    const_subarray { return dropped_aux_(n); }
 
@@ -1290,7 +1290,7 @@ struct const_subarray : array_types<T, D, ElementPtr, Layout> {
  public:
 	BOOST_MULTI_HD constexpr auto sliced(index first, index last) const& -> const_subarray { return sliced_aux_(first, last); }
 
-	constexpr auto blocked(index first, index last) const& -> basic_const_array { return sliced(first, last).reindexed(first); }
+	constexpr auto blocked(index first, index last) const& -> const_subarray { return sliced(first, last).reindexed(first); }
 	constexpr auto blocked(index first, index last)      & -> const_subarray { return sliced(first, last).reindexed(first); }
 
 	using iextension = typename const_subarray::index_extension;
@@ -1309,13 +1309,13 @@ struct const_subarray : array_types<T, D, ElementPtr, Layout> {
 	template<class... Xs>
 	constexpr auto stenciled(iextension iex, iextension iex1, iextension iex2, iextension iex3, Xs... iexs)    && -> const_subarray{ return ((stenciled(iex).rotated()).stenciled(iex1, iex2, iex3, iexs...)).unrotated(); }
 
-	constexpr auto stenciled(iextension iex)                                                    const& -> basic_const_array { return blocked(iex.first(), iex.last()); }
-	constexpr auto stenciled(iextension iex, iextension iex1)                                   const& -> basic_const_array { return ((stenciled(iex).rotated()).stenciled(iex1)).unrotated(); }
-	constexpr auto stenciled(iextension iex, iextension iex1, iextension iex2)                  const& -> basic_const_array { return ((stenciled(iex).rotated()).stenciled(iex1, iex2)).unrotated(); }
-	constexpr auto stenciled(iextension iex, iextension iex1, iextension iex2, iextension iex3) const& -> basic_const_array { return ((stenciled(iex).rotated()).stenciled(iex1, iex2, iex3)).unrotated(); }
+	constexpr auto stenciled(iextension iex)                                                    const& -> const_subarray { return blocked(iex.first(), iex.last()); }
+	constexpr auto stenciled(iextension iex, iextension iex1)                                   const& -> const_subarray { return ((stenciled(iex).rotated()).stenciled(iex1)).unrotated(); }
+	constexpr auto stenciled(iextension iex, iextension iex1, iextension iex2)                  const& -> const_subarray { return ((stenciled(iex).rotated()).stenciled(iex1, iex2)).unrotated(); }
+	constexpr auto stenciled(iextension iex, iextension iex1, iextension iex2, iextension iex3) const& -> const_subarray { return ((stenciled(iex).rotated()).stenciled(iex1, iex2, iex3)).unrotated(); }
 
 	template<class... Xs>
-	constexpr auto stenciled(iextension iex, iextension iex1, iextension iex2, iextension iex3, Xs... iexs) const& -> basic_const_array {
+	constexpr auto stenciled(iextension iex, iextension iex1, iextension iex2, iextension iex3, Xs... iexs) const& -> const_subarray {
 		return ((stenciled(iex).rotated()).stenciled(iex1, iex2, iex3, iexs...)).unrotated();
 	}
 
@@ -1342,7 +1342,7 @@ struct const_subarray : array_types<T, D, ElementPtr, Layout> {
 	}
 
  public:
-	constexpr auto strided(difference_type diff) const& -> basic_const_array { return strided_aux_(diff); }
+	constexpr auto strided(difference_type diff) const& -> const_subarray { return strided_aux_(diff); }
 	constexpr auto strided(difference_type diff)     && ->    const_subarray { return strided_aux_(diff); }
 	constexpr auto strided(difference_type diff)      & ->    const_subarray { return strided_aux_(diff); }
 
@@ -1479,10 +1479,10 @@ struct const_subarray : array_types<T, D, ElementPtr, Layout> {
 	}
 
  public:
-	       constexpr auto reversed()           const&    -> basic_const_array { return reversed_aux_(); }
+	       constexpr auto reversed()           const&    -> const_subarray { return reversed_aux_(); }
 	       constexpr auto reversed()                &    ->          const_subarray { return reversed_aux_(); }
 	       constexpr auto reversed()               &&    ->          const_subarray { return reversed_aux_(); }
-	friend constexpr auto reversed(const_subarray const& self) -> basic_const_array { return           self .reversed(); }
+	friend constexpr auto reversed(const_subarray const& self) -> const_subarray { return           self .reversed(); }
 	friend constexpr auto reversed(const_subarray      & self) ->          const_subarray { return           self .reversed(); }
 	friend constexpr auto reversed(const_subarray     && self) ->          const_subarray { return std::move(self).reversed(); }
 
